@@ -171,8 +171,6 @@ def value_json(r):
         return {'t': 'labels', 'v': [lab_json(x) for x in r]}
     if r is None:
         return {'t': 'unit'}
-    if isinstance(r, (bool, np.bool_)):
-        return {'t': 'bool', 'v': bool(r)}
     return {'t': 'cell', 'v': cell_json(r)}
 
 EXN = {'IndexError': 'IndexError', 'ValueError': 'ValueError', 'TypeError': 'TypeError',
